@@ -112,7 +112,8 @@ def run(ctx):
                 ctx.distinct.add(hashlib.sha1(line.encode()).digest())
         if ctx.broken and not ctx.fails:
             for s in range(ctx.seed + 7000, ctx.seed + 7003):
-                ops, out, meta = ctx.run_hx("oracle", 2000, seed=s, tag="-widen", timeout=1500)
+                ops, out, meta = ctx.run_hx("oracle", 2000, seed=s, tag="-widen", timeout=1500,
+                                            extra_args=["-extra", "big=30"])
                 ctx.absorb_meta(meta, prefix="widen_")
                 if ctx.fails:
                     break
@@ -126,6 +127,10 @@ def run(ctx):
                    c.get("programs_with_both_encodings", 0) > 0 and c.get("gates_32bit_ids", 0) > 0, str(c))
         ctx.oblige("generator reached programs with gc active and no early free that were compared",
                    c.get("compared_gc_active_no_early_free", 0) > 0, str(c))
+        ctx.oblige("a streamed instruction circuit had more than 65536 wires (temporary indexes > 65535) while "
+                   "persistent ids were small, both id encodings in that session",
+                   c.get("programs_with_tmp_index_over_65535_and_small_ids", 0) > 0 and c.get("codec_idclass_4", 0) > 0,
+                   str(c))
         want_ops = ["amov", "concat", "lshift", "rshift", "srshift", "slice", "mov", "smov", "phi", "index"]
         missing = [o for o in want_ops if c.get("ssaop_" + o, 0) == 0]
         ctx.oblige("every rewiring operand (and phi, index) occurred in the streamed programs", not missing, str(missing))
@@ -133,7 +138,9 @@ def run(ctx):
                    c.get("class_corpus", 0) >= 3, str(c))
     ctx.coverage["rule"] = (
         "oracle: seeded grammar-based MPCL programs in 4 classes (alias-heavy with few widths, mixed, unsized main "
-        "arguments instantiated from the input sizes, garbler argument [>1024]uint64 so that wire ids exceed 65535) "
+        "arguments instantiated from the input sizes, garbler argument [>1024]uint64 so that wire ids exceed 65535, a boundary sweep around id 65536, and small "
+        "programs with ONE instruction circuit of more than 65536 wires - wide division/modulo/multiplication - so that "
+        "temporary wire indexes exceed 65535 while persistent ids are small) "
         "with scalar/array/struct arguments, 1-4 results incl. arrays, random inputs, ideal and Chou-Orlandi OT, seeded "
         "read fragmentation; every program's SSA is analysed per bit for id ranges freed while still pointed at. "
         "distinct = distinct Lean op lines (pre-GC step lists with allocator tables; Streaming.Garble cases)")
